@@ -1,8 +1,8 @@
 SPECIFICATION MCSpec
-CONSTANTS P = 7
- NMin = 4
- NMax = 4
- TMax = 3
+CONSTANTS P = 13
+ NMin = 7
+ NMax = 7
+ TMax = 2
  KeyMode = "id"
  VerifyMode = "pairing"
 INVARIANTS TypeOK Algebra
